@@ -17,10 +17,11 @@ import (
 // section of parser.y is parsed by a small reader. Nothing generated is ever executed.
 
 type Production struct {
-	LHS  string
-	RHS  []string
-	Prec string // explicit %prec token, if any
-	Line int
+	LHS    string
+	RHS    []string
+	Prec   string // explicit %prec token, if any
+	Line   int
+	Action string // text of the (last) semantic action, without the outer braces
 }
 
 type Grammar struct {
@@ -237,6 +238,12 @@ func parseYacc(path string) (*Grammar, error) {
 		}
 	}
 	flush()
+	acts := productionActions(parts[1])
+	if len(acts) == len(g.Prods) {
+		for i := range g.Prods {
+			g.Prods[i].Action = acts[i]
+		}
+	}
 	if len(g.Prods) == 0 {
 		return nil, fmt.Errorf("%s: no productions parsed", path)
 	}
@@ -338,4 +345,75 @@ func regenerateParser(repo, verif string) (*GenFacts, error) {
 		}
 	}
 	return gf, nil
+}
+
+// productionActions returns, in textual order of the productions (one per ':' or '|'
+// outside actions), the text of the last top-level action block of each production.
+func productionActions(rules string) []string {
+	var out []string
+	cur := -1
+	depth := 0
+	start := 0
+	for i := 0; i < len(rules); i++ {
+		c := rules[i]
+		if c == '/' && i+1 < len(rules) && rules[i+1] == '*' {
+			j := strings.Index(rules[i+2:], "*/")
+			if j < 0 {
+				break
+			}
+			i = i + 2 + j + 1
+			continue
+		}
+		if depth > 0 {
+			switch c {
+			case '/':
+				if i+1 < len(rules) && rules[i+1] == '/' {
+					for i < len(rules) && rules[i] != '\n' {
+						i++
+					}
+				}
+			case '"':
+				i++
+				for i < len(rules) && rules[i] != '"' {
+					if rules[i] == '\\' {
+						i++
+					}
+					i++
+				}
+			case '\'':
+				i++
+				for i < len(rules) && rules[i] != '\'' {
+					if rules[i] == '\\' {
+						i++
+					}
+					i++
+				}
+			case '`':
+				i++
+				for i < len(rules) && rules[i] != '`' {
+					i++
+				}
+			case '{':
+				depth++
+			case '}':
+				depth--
+				if depth == 0 && cur >= 0 {
+					out[cur] = rules[start:i]
+				}
+			}
+			continue
+		}
+		switch c {
+		case '{':
+			depth = 1
+			start = i + 1
+		case ':', '|':
+			out = append(out, "")
+			cur = len(out) - 1
+		case '\'':
+			// quoted character token
+			i += 2
+		}
+	}
+	return out
 }
